@@ -2,6 +2,7 @@
 process pool, aggregate statistics, turn replayed candidates into findings."""
 from __future__ import annotations
 
+import os
 from typing import Callable, List
 
 import vlib
@@ -63,6 +64,12 @@ def run_family(rep: vlib.Report, cfgs: List[dict], twins: List[dict], *, functio
                             'queries': st['queries']})
     slow = sorted(((r.get('wall_s', 0), str(r.get('cfg'))[:300]) for r in results if 'harness_error' not in r), reverse=True)[:5]
     rep.coverage['slowest_configs'] = slow
+    if os.environ.get('SYMX_SAMPLE_EVERY'):
+        smt = [x for r in results if 'harness_error' not in r for x in r.get('smt_samples', [])]
+        cs = vlib.cross_solver(smt)
+        rep.coverage['cross_solver'] = cs
+        for dgr in cs['disagreements']:
+            rep.error(f'solvers disagree on a sampled query: {dgr}')
     twin_report = []
     for cfg, r in zip(twins, tw_results):
         if 'harness_error' in r:
